@@ -480,7 +480,7 @@ theorem validate_cnormEntry {d : Nat} {g : GoMap} (hf : HMap d g)
   · simp only [cnormEntry]; rw [normalizeLabel_normVal (hfl e he), h1]
   · have hhas : ∀ x, normalizeLabel x ≠ none → hasLabel g x = hasLabel (g.map cnormEntry) x :=
       fun x hx => C13.hasLabel_congr_norm g _ (normLabels_cnormEntry hfl).symm x x rfl hx
-    rw [← C13.checkParam_congr g _ hhas]
+    rw [← C13.checkParam_congr g _ hhas hok.1 (labelsOK_cnormEntry hfl hok).1]
     simp only [cnormEntry]
     rcases (hf e he).2 with ⟨hrt, hu⟩ | ⟨-, hc⟩
     · rw [cnorm_other (isCs_rtVal hrt)]
